@@ -10,7 +10,7 @@ TRUSTED = [
     "keyword dimension string is also asked from the real code)",
     "Proofs/UnitsSpec.lean: the hand-written SI definitions and measure compositions the tables are proved equal to; "
     "Proofs/UnitsUseSpec.lean: the specification's reading of a composite string, UDA control -> deck item, and the "
-    "exception lists in the theorem statements (udaOpen = [WCONPROD_LIFT], the one open finding; inputLacks = [Ymodule]; "
+    "exception lists in the theorem statements (udaOpen = [WCONINJE_RESV, WCONPROD_RESV, GCONINJE_RESV_MAX_RATE, WCONPROD_LIFT], the open findings; inputLacks = [Ymodule]; "
     "fieldPropsOpen / fieldPropsMismatchOpen are empty since fix 0d2fae2e6)",
     "modelled, not verified: Summary.cpp mul_unit/div_unit (anonymous namespace) are tied by the translator only",
     "harness/units.cpp + lib/vlib.py differ; model driver (compiled Lean)",
@@ -25,7 +25,7 @@ TRUSTED = [
 def run(ctx):
     ctx.assumptions += [
         "doubles cross the protocol as IEEE bit patterns; the build has no FMA contraction (x86-64 baseline)",
-        "\"X/\" and \"/\": UnitSystem::parse refuses them (std::invalid_argument, fix ee5075475); the harness probes this in a "
+        "\"X/\" and \"/\": UnitSystem::parse refuses them (std::invalid_argument, fix ee5075475, kept in dc1eee513); the harness probes this in a "
         "forked child first and sends such strings only if the tree under test refuses them (a tree without the guard "
         "indexes parts[1] of a one-element vector: property key parse.trailing_slash fails, theorem parse_never_ub_iff)",
     ]
